@@ -54,6 +54,9 @@ def ups(rng, depth):
     return ['..'] * rng.randint(0, depth)
 
 
+OUT_DICT = [True]
+
+
 def gen_target(rng, depth, minlen=0):
     """a branch path relative to the process's parent"""
     p = ups(rng, depth)
@@ -95,7 +98,8 @@ def gen_port(rng, depth):
         sch = {'$node': {'out': False, 'c': [['*', sub]]}}
         return sch, {'$path': ups(rng, depth) + [rng.choice(GLOBS)]}
     c = gen_vars_schema(rng)
-    sch = {'$node': {'out': False, 'c': c}}
+    # (an output-only port may be wired through a dictionary as well)
+    sch = {'$node': {'out': OUT_DICT[0] and rng.random() < 0.2, 'c': c}}
     if kind == 'dictpath':
         # '_path' plus renamed / redirected sub-keys; unlisted sub-keys keep their name
         ents = []
